@@ -12,7 +12,7 @@ at most one live instance per (class, id).
 (An earlier draft clause "expired ⇒ no cached column" is NOT an invariant of the code: assigning to an
 expired instance caches the assigned value and leaves `expired` set; it is not needed for any theorem.)
 
-`LibStep s op` = "all writes go through the library": no raw SQL, the library builds a second instance
+`LibStep cfg s op` = "all writes go through the library": no raw SQL, the library builds a second instance
 only for a row no live instance stands for (identity map, C04), the application does not write through
 destroyed instances.  Failures (validator `Invalid`, refused UPDATE) are inputs of the operations, so
 every theorem below also covers histories with failed writes.
@@ -24,7 +24,7 @@ theorem C05_inv_init (cfg : Cfg) : OrmValInv cfg init := inv_init cfg
 
 /-- … and is preserved by every library operation (create, get/fetch, select refresh, read, setattr,
     set, syncUpdate, sync, expire, expireAll, destroySelf, pickle, dropping a reference), whatever fails. -/
-theorem C05_inv_step (cfg : Cfg) (s : State) (op : Op) (hinv : OrmValInv cfg s) (hlib : LibStep s op) :
+theorem C05_inv_step (cfg : Cfg) (s : State) (op : Op) (hinv : OrmValInv cfg s) (hlib : LibStep cfg s op) :
     OrmValInv cfg (step cfg s op).1 := inv_step cfg s op hinv hlib
 
 /-- hence it holds in every state reachable by library operations … -/
@@ -34,7 +34,7 @@ theorem C05_inv_reachable (cfg : Cfg) (s : State) (hs : LibReach cfg s) : OrmVal
   | step s op _ hlib ih => exact inv_step cfg s op ih hlib
 
 /-- … i.e. after every history, of any length, over any classes / rows / handles. -/
-theorem C05_inv_history (cfg : Cfg) (ops : List Op) (hh : Hist LibStep cfg init ops) :
+theorem C05_inv_history (cfg : Cfg) (ops : List Op) (hh : Hist (LibStep cfg) cfg init ops) :
     OrmValInv cfg (run cfg init ops) :=
   C05_inv_reachable cfg _ (libReach_run cfg init ops LibReach.init hh)
 
@@ -193,8 +193,17 @@ theorem C05_expire_read_reestablishes (cfg : Cfg) (s : State) (h : Hnd) (o : Ins
 
 /-! ## non-vacuity and regression witnesses (concrete histories evaluated on the model) -/
 
-/-- classes: 0 eager, 1 lazy, 2 `cacheValues=False`; 2 columns each -/
-def exCfg : Cfg := { lazyUpdate := fun c => c == 1, cacheValues := fun c => c != 2, ncols := fun _ => 2, doCache := true }
+/-- classes: 0 eager, 1 lazy, 2 `cacheValues=False`, 3 eager / 4 lazy with `ForeignKey(class 0, cascade='null')` in
+    column 0, 5 eager with `ForeignKey(class 0, cascade=True)`; 2 columns each -/
+def exFk : Cls → Option (Cls × FkKind)
+  | 3 => some (0, FkKind.null)
+  | 4 => some (0, FkKind.null)
+  | 5 => some (0, FkKind.cascade)
+  | _ => none
+
+def exCfg : Cfg :=
+  { lazyUpdate := fun c => c == 1 || c == 4, cacheValues := fun c => c != 2, ncols := fun _ => 2, fk := exFk,
+    doCache := true }
 
 /-- the library history of the former defect "reload of an expired lazy object hides its pending value":
     create, expire, assign x, read y, read x — is a `LibStep` history, and the read shows the pending 5 -/
@@ -213,12 +222,38 @@ example : (opRead exCfg (run exCfg init
     [.create 0 0 1 [(0, .ok (some 1)), (1, .ok (some 2))], .set 0 [(0, .ok (some 77)), (1, .bad)] false]) 0 0).2
     = .val (some 1) := by decide
 
+/-- `destroySelf` of a referenced row, with its dependents loop: class 0 row 1 is referenced by the held eager
+    instance 1 (cascade='null'), the held lazy instance 2 (cascade='null'), an unheld row of class 3 (the library
+    builds instance 4 for it) and the held instance 3 of the cascade=True class -/
+def exCascade : List Op :=
+  [.create 0 0 1 [(0, .ok (some 7)), (1, .ok (some 8))],
+   .create 1 3 1 [(0, .ok (some 1)), (1, .ok (some 5))],
+   .create 2 4 1 [(0, .ok (some 1)), (1, .ok (some 6))],
+   .create 3 5 1 [(0, .ok (some 1)), (1, .ok (some 7))],
+   .oobInsert 3 2 [(0, some 1), (1, some 9)],
+   .destroy 0 [.sel 3, .row 1 none, .row 4 (some (3, 2)), .sel 4, .row 2 none, .sel 5, .row 3 none]]
+
+/-- afterwards: the eager referrers' rows hold NULL and the held instance shows NULL; the cascade row is gone;
+    the referenced row is gone -/
+example : ((run exCfg init exCascade).db 3 1).map (· 0) = some none ∧
+    ((run exCfg init exCascade).db 3 2).map (· 0) = some none ∧
+    (opRead exCfg (run exCfg init exCascade) 1 0).2 = .val none ∧
+    ((run exCfg init exCascade).db 5 1).isNone = true ∧ ((run exCfg init exCascade).db 0 1).isNone = true := by decide
+
+/-- the LAZY referrer shows NULL (pending) while its row still holds the deleted id until sync — what the
+    real code does (`row.set` on a lazy object does not write); reads agree with C05/C16 (pending value),
+    the dangling reference in the table is a cascade-policy matter (C12) -/
+example : (opRead exCfg (run exCfg init exCascade) 2 0).2 = .val none ∧
+    ((run exCfg init exCascade).db 4 1).map (· 0) = some (some 1) ∧
+    ((run exCfg init exCascade).objs 2).map (·.pending) = some [(0, none)] := by decide
+
 /-- the hypotheses of `C05_inv_history` are satisfiable by a history with writes, reads, sync, expire, destroy -/
-example : Hist LibStep exCfg init
+example : Hist (LibStep exCfg) exCfg init
     [.create 0 1 1 [(0, .ok (some 1))], .setattr 0 0 (.ok (some 5)) false, .read 0 1, .sync 0 false,
-     .expire 0, .destroy 0] := by
+     .expire 0, .destroy 0 []] := by
   have live : ∀ (s : State) (h : Hnd), ((s.objs h).map (·.obsolete)).getD false = false → LiveTarget s h := by
     intro s h hb o ho; simpa [ho] using hb
-  refine ⟨trivial, live _ _ (by decide), trivial, live _ _ (by decide), trivial, live _ _ (by decide), trivial⟩
+  refine ⟨trivial, live _ _ (by decide), trivial, live _ _ (by decide), trivial,
+    fun o _ => ⟨trivial, by simp only [opRefSteps]; exact live _ _ (by decide)⟩, trivial⟩
 
 end SqlObjVerif.OrmVal
